@@ -154,3 +154,33 @@ Theorem operands_are_evaluated_one_by_one_in_order : forall ev a r st,
   end.
 Proof. exact EagerOps.eval_args_cons. Qed.
 Print Assumptions operands_are_evaluated_one_by_one_in_order.
+
+(** * case selects by value (proofs/CaseProofs.v): for a well-formed clause list (every clause a list with a key, the
+    keys pairwise different as texts — the two facts the operator checks first, here as premises), the body that
+    runs is the body of the first clause whose key EQUALS the value of the key form (Python equality: a comparison
+    result selects the clause 1 / 0, a string never selects a number clause); the default clause runs only when no
+    key equals the value, wherever it stands; no other body is evaluated; without a default the result is None. *)
+From WalModel.proofs Require CaseProofs.
+Theorem case_runs_exactly_the_selected_body : forall (ev : val -> M val) kf clauses v keys sel st st1,
+  ev kf st = Ok v st1 ->
+  CaseProofs.case_keys clauses st1 = Ok keys st1 ->
+  List.length (dedup_str keys []) = List.length clauses ->
+  CaseProofs.case_select v clauses None = Some sel ->
+  op_case ev (kf :: clauses) st =
+    match sel with
+    | Some body => (vs <- eval_args ev body ;; last_or_index_error vs) st1
+    | None => Ok VNone st1
+    end.
+Proof. exact CaseProofs.case_runs_the_selected_body. Qed.
+Print Assumptions case_runs_exactly_the_selected_body.
+Example case_selection_is_by_value :
+  let cl k b := PL [k; b] in
+  CaseProofs.case_select (VBool true) [cl (VInt 1) (VStr "one"); cl (VInt 0) (VStr "zero"); cl (VSym "default" None) (VStr "d")] None
+    = Some (Some [VStr "one"]) /\
+  CaseProofs.case_select (VBool false) [cl (VInt 1) (VStr "one"); cl (VInt 0) (VStr "zero"); cl (VSym "default" None) (VStr "d")] None
+    = Some (Some [VStr "zero"]) /\
+  CaseProofs.case_select (VStr "1") [cl (VInt 1) (VStr "one"); cl (VSym "default" None) (VStr "d")] None = Some (Some [VStr "d"]) /\
+  CaseProofs.case_select (VInt 2) [cl (VSym "default" None) (VStr "d"); cl (VInt 2) (VStr "two")] None = Some (Some [VStr "two"]) /\
+  CaseProofs.case_select (VInt 3) [cl (VInt 2) (VStr "two")] None = Some None.
+Proof. exact CaseProofs.case_select_by_value. Qed.
+Print Assumptions case_selection_is_by_value.
